@@ -25,6 +25,12 @@ A scenario is JSON-able: {"start_id": int, "steps": [step, ...]} with steps
   ["ans", task, kind, serial]           the peer answers the REQUEST MESSAGE that task `task` sent (one-way requests
                                         included): a response echoing the call id that request carried, whose body /
                                         error code names the task (skipped when that task has not sent anything)
+  ["churn", n, pattern, batch, order]   n further call ids are consumed by short-lived traffic, `batch` requests at a time (see Conn.churn):
+                                        pattern letters 'c' call answered ok | 'e' call answered with an error | 'o' one-way request |
+                                        'O' one-way request the peer answers all the same; answers by addressee, "fifo" | "lifo"
+  ["strays", ids, kinds, gap]           len(ids) responses nobody waits for in a row (see Conn.strays): ids = [id, ...] | ["range", first,
+                                        count, step]; kinds letters 'k' ok | 'z' ok, empty body | 'e' error | 'n' error without bit 31;
+                                        gap = loop iterations between two of them (0 = one burst)
   ["raw", hex]                          the peer's next datagram (any bytes)
   ["req", protocol, method, call_id]    the peer's next datagram: a request (no server registered)
   ["preq", protocol, method, call_id, serial]
@@ -497,6 +503,10 @@ class Conn:
                 fake.inbox.append((data, t)); fake._kick()
             else:
                 sim.skipped_ans += 1
+        elif k == "churn":
+            await self.churn(tg, *st[1:])
+        elif k == "strays":
+            await self.strays(*st[1:])
         elif k == "raw":
             fake.inbox.append((bytes.fromhex(st[1]) if st[1] != "-" else b"", None)); fake._kick()
         elif k == "req":
@@ -512,6 +522,43 @@ class Conn:
                 await _closer(sim, client, k)
         else:
             raise ValueError(st)
+
+    async def churn(self, tg, n, pattern="c", batch=1, order="fifo", settle=8):
+        """n further call ids are consumed on this connection by short-lived traffic of other tasks, `batch` requests at a
+        time: the i-th request is what pattern[i % len(pattern)] says - 'c' a call the peer answers with success, 'e' a call
+        the peer answers with an error, 'o' a one-way request (noresponse=True) nobody answers, 'O' a one-way request the
+        peer answers all the same (a response nobody waits for). The peer answers the REQUEST MESSAGES of a batch (echoing
+        the call id each carried, the data naming the task) in the order they were sent ("fifo") or the reverse ("lifo");
+        the director then lets the loop run until the calls of the batch have completed (at most `settle` iterations)."""
+        sim, done = self.sim, 0
+        while done < n:
+            b = min(batch, n - done)
+            first = len(sim.callers)
+            for i in range(b):
+                tg.start_soon(_caller, sim, self.client, 1 if pattern[(done + i) % len(pattern)] in "oO" else 0, 0, None)
+            await anyio.sleep(0)
+            ts = [first + i for i in range(b) if first + i < len(sim.callers)]
+            for t in (ts if order == "fifo" else ts[::-1]):
+                kind = pattern[(done + t - first) % len(pattern)]
+                if kind in "ceO":
+                    await self.step(tg, ["ans", t, "err" if kind == "e" else "ok", 0])
+            for _ in range(settle):
+                await anyio.sleep(0)
+                if not self.fake.inbox and all(sim.callers[t]["outcome"] is not None for t in ts):
+                    break
+            done += b
+
+    async def strays(self, ids, kinds="k", gap=0, serial=100):
+        """responses nobody waits for, one after the other: ids = a list of call ids, or ["range", first, count, step];
+        kinds[i % len(kinds)] = 'k' success | 'z' success with an empty body | 'e' error | 'n' error whose code lacks bit 31;
+        gap = loop iterations the peer lets pass between two of them (0: they sit in the transport as one burst)."""
+        if ids and ids[0] == "range":
+            ids = [(ids[1] + j * ids[3]) & 0xFFFFFFFF for j in range(ids[2])]
+        names = {"k": "ok", "z": "ok-empty", "e": "err", "n": "err-nobit"}
+        for j, cid in enumerate(ids):
+            self.fake.inbox.append((build_resp(cid & 0xFFFFFFFF, names[kinds[j % len(kinds)]], serial + j % 50), None)); self.fake._kick()
+            for _ in range(gap):
+                await anyio.sleep(0)
 
     def settle_yields(self):
         # the receive loop waits in every request handler and in every slow answer send
